@@ -81,6 +81,7 @@ def mode? : Sexp → Option ItemMode
 def ctxKind? : Sexp → Option CtxKind
   | .list [.atom "plain"] => some .plain
   | .list [.atom "override", a, b] => do some (.override (← a.nat?) (← b.nat?))
+  | .list [.atom "nonasync"] => some .nonasync
   | _ => none
 
 def refs? : Sexp → Option (List Ref)
@@ -206,7 +207,7 @@ def outStr : Outcome → String
 def modeStr : ItemMode → String
   | .ok => "ok" | .unset => "unset" | .err e => s!"(err {e})"
 def ctxKindStr : CtxKind → String
-  | .plain => "(plain)" | .override a b => s!"(override {a} {b})"
+  | .plain => "(plain)" | .override a b => s!"(override {a} {b})" | .nonasync => "(nonasync)"
 partial def ryStr : RY → String
   | .none => "none"
   | .junk => "junk"
